@@ -26,6 +26,12 @@ def run(ctx):
     r = 0
     while r < nrs:
         rs = rulesets.gen_ruleset(ctx.rng, max_bases=3, max_len=3)
+        if r % 3 == 1:
+            # tie-rich family: equally probable words x equally probable masks in one pre-terminal
+            rs["files"]["A3"] = [("cat", 0.4), ("dog", 0.4), ("abc", 0.2)]
+            rs["files"]["C3"] = [("LLL", 0.3), ("ULL", 0.3), ("UUU", 0.3), ("LLU", 0.1)]
+            rs["files"]["D2"] = [("12", 0.25), ("99", 0.25), ("07", 0.25), ("00", 0.25)]
+            rs["prince"] = [("A3", 0.5), ("D2", 0.3)] + [x for x in rs["prince"] if x[0] not in ("A3", "D2")][:2]
         name = "P%d" % r
         rs["name"] = name
         lower = ctx.rng.random() < 0.4
@@ -41,6 +47,22 @@ def run(ctx):
         ref = [x for p in per_item for x in p]
         rulesets.write_ruleset(rs, os.path.join(code, "Rules", name))
         refs[name] = (rs, lower, per_item, ref, probs)
+        # in-process: the real wordlist loop with EVERY size 1 .. total+1 (capped)
+        from lib_princeling.wordlist_generation import create_prince_wordlist
+        for nsz in range(1, min(len(ref) + 2, ctx.scale(200, 800))):
+            got = []
+            old = g.print_guess
+            g.print_guess = got.append
+            try:
+                common.quiet_call(create_prince_wordlist, g, nsz)
+            finally:
+                g.print_guess = old
+            dist["inprocess_size_runs"] = dist.get("inprocess_size_runs", 0) + 1
+            if got != ref[:nsz]:
+                vio.append({"sig": "C17:overshoot" if len(got) > nsz else "C17:content",
+                            "what": "create_prince_wordlist with size %d wrote %d words (expected the first %d of %d)" % (nsz, len(got), min(nsz, len(ref)), len(ref)),
+                            "replay": {"ruleset": rs, "all_lower": lower, "n": nsz, "file": False}})
+                break
         r += 1
         dist["rulesets"] += 1
         bounds, c = [], 0
